@@ -1,0 +1,161 @@
+//go:build verif
+
+// Contracts (property C19) for pkg/arrai/out.go, read by /verif/engine (govc). Comments only.
+// Ghost state and the assumed contracts of afero.Fs / afero.File: /verif/specs/70_fs.spec.
+package arrai
+
+//@ globalfact errFileAndDirMustNotExist errFileAndDirMustNotExist != nil
+//@ globalfact errFileOrDirMustExist errFileOrDirMustExist != nil
+
+// okFile(content): what --out can write as a file: bytes, a string, or the empty set (empty file)
+//@ spec okFile(c) = c is rel.Bytes || c is rel.String || (c is rel.Set && !istrue(c))
+
+//@ func getDirField(v)
+//@   tags C19, C10
+//@   returns (set, err)
+//@   assigns fresh-only
+//@   ensures[C19] kinds: (err == nil) <==> (v is rel.Dict || v is rel.EmptySet)
+//@   ensures[C19] same: err == nil ==> set == v
+
+//@ func checkNotDirAndNotFileField(t)
+//@   tags C19, C10
+//@   assigns nothing
+//@   requires t != nil
+//@   ensures[C19] (result == nil) <==> (!hasattr(t, "dir") && !hasattr(t, "file"))
+
+//@ func checkDirXorFileField(t)
+//@   tags C19, C10
+//@   assigns nothing
+//@   requires t != nil
+//@   ensures[C19] (result == nil) <==> (hasattr(t, "dir") != hasattr(t, "file"))
+
+//@ func outputFile(content, path, fs, dryRun)
+//@   tags C19, C10
+//@   returns (err)
+//@   assigns fresh-only
+//@   modifies fswrites, fsiofail, fspending
+//@   abstract defer
+//@   ghostentry fspending := false
+//@   requires fs != nil
+//@   requires[C19] clean: !fsiofail
+//@   requires[C19] inroot: within(path, fsroot)
+//@   ensures[C19] dry: dryRun ==> fswrites == old(fswrites)
+//@   ensures[C19] mono: fswrites >= old(fswrites)
+//@   ensures[C19] ioerr: err == nil ==> !fsiofail
+//@   ensures[C19] valfirst: err != nil && !fsiofail ==> fswrites == old(fswrites)
+//@   ensures[C19] kinds: err == nil ==> okFile(content)
+//@   ensures[C19] handled: !fspending
+
+// okFields(t): the dir/file payload of a config tuple is usable: a `dir` that is a dictionary, else a `file`
+// that is file content
+//@ spec okFields(t) = (hasattr(t, "dir") ==> (tget(t, "dir") is rel.Dict || tget(t, "dir") is rel.EmptySet)) && (!hasattr(t, "dir") ==> hasattr(t, "file") && okFile(tget(t, "file")))
+
+//@ func applyFilesFields(t, path, fs, dryRun)
+//@   tags C19, C10
+//@   returns (err)
+//@   assigns fresh-only
+//@   modifies fswrites, fsiofail, fsobsfail, fspending, fsdryok, rel.DictEnumerator
+//@   requires t != nil && fs != nil
+//@   requires[C19] validated: !dryRun ==> fsdryok
+//@   requires[C19] clean: !fsiofail
+//@   requires[C19] inroot: within(path, fsroot)
+//@   ensures[C19] dry: dryRun ==> fswrites == old(fswrites)
+//@   ensures[C19] realkeep: !dryRun ==> fsdryok == old(fsdryok)
+//@   ensures[C19] mono: fswrites >= old(fswrites)
+//@   ensures[C19] ioerr: err == nil ==> !fsiofail
+//@   ensures[C19] obserr: err == nil ==> fsobsfail == old(fsobsfail)
+//@   ensures[C19] validates: err == nil ==> okFields(t)
+//@   ensures[C19] handled: err == nil ==> !fspending
+
+// okConf(t): the config tuple is locally valid (what the dry pass has to establish before the real pass may
+// delete or write anything): ifExists is one of the five strings; remove: neither dir nor file; replace:
+// exactly one of dir/file, usable; merge: a usable dir and no file.
+//@ spec cfg(t) = strof(tget(t, "ifExists"))
+//@ spec okConf(t) = hasattr(t, "ifExists") ==> (tget(t, "ifExists") is rel.String && (cfg(t) == "remove" || cfg(t) == "replace" || cfg(t) == "merge" || cfg(t) == "ignore" || cfg(t) == "fail") && (cfg(t) == "remove" ==> !hasattr(t, "dir") && !hasattr(t, "file")) && (cfg(t) == "replace" ==> hasattr(t, "dir") != hasattr(t, "file") && okFields(t)) && (cfg(t) == "merge" ==> !hasattr(t, "file")))
+
+//@ func applyIfExistsConfig(t, dir, fs, dryRun)
+//@   tags C19, C10
+//@   returns (err)
+//@   assigns fresh-only
+//@   modifies fswrites, fsiofail, fsobsfail, fspending, fsdryok, rel.DictEnumerator
+//@   requires t != nil && fs != nil
+//@   requires[C19] validated: !dryRun ==> fsdryok
+//@   requires[C19] clean: !fsiofail
+//@   requires[C19] inroot: within(dir, fsroot)
+//@   ensures[C19] dry: dryRun ==> fswrites == old(fswrites)
+//@   ensures[C19] realkeep: !dryRun ==> fsdryok == old(fsdryok)
+//@   ensures[C19] mono: fswrites >= old(fswrites)
+//@   ensures[C19] ioerr: err == nil ==> !fsiofail
+//@   ensures[C19] obserr: err == nil ==> fsobsfail == old(fsobsfail)
+//@   ensures[C19] validates: err == nil ==> okConf(t)
+//@   ensures[C19] handled: err == nil && old(!fspending) ==> !fspending
+
+//@ func getConfigurators()
+//@   tags C19, C10
+//@   assigns fresh-only
+//@   ensures len(result) == 1 && result[0] == fnval("pkg/arrai.applyIfExistsConfig")
+
+//@ func configureOutput(t, dir, fs, dryRun)
+//@   tags C19, C10
+//@   returns (err)
+//@   assigns fresh-only
+//@   modifies fswrites, fsiofail, fsobsfail, fspending, fsdryok, rel.DictEnumerator
+//@   fnparam * is pkg/arrai.applyIfExistsConfig
+//@   ghostentry fspending := false
+//@   requires t != nil && fs != nil
+//@   requires[C19] validated: !dryRun ==> fsdryok
+//@   requires[C19] clean: !fsiofail
+//@   requires[C19] inroot: within(dir, fsroot)
+//@   ensures[C19] dry: dryRun ==> fswrites == old(fswrites)
+//@   ensures[C19] realkeep: !dryRun ==> fsdryok == old(fsdryok)
+//@   ensures[C19] mono: fswrites >= old(fswrites)
+//@   ensures[C19] ioerr: err == nil ==> !fsiofail
+//@   ensures[C19] obserr: err == nil ==> fsobsfail == old(fsobsfail)
+//@   ensures[C19] validates: err == nil ==> okConf(t) && (!hasattr(t, "ifExists") ==> okFields(t))
+//@   ensures[C19] handled: err == nil ==> !fspending
+//@   loop 0 invariant names: len(configNames) == 1 && configNames[0] == "ifExists" && ($idx >= 1 ==> !hasattr(t, "ifExists"))
+//@   loop 0 invariant fsdryok == old(fsdryok) && fswrites == old(fswrites) && !fsiofail && fsobsfail == old(fsobsfail) && !fspending
+//@   loop 1 invariant dry: dryRun ==> fswrites == old(fswrites)
+//@   loop 1 invariant mono: fswrites >= old(fswrites)
+//@   loop 1 invariant io: !fsiofail && fsobsfail == old(fsobsfail) && !fspending
+//@   loop 1 invariant val: $idx >= 1 ==> okConf(t)
+//@   loop 1 invariant validated: !dryRun ==> fsdryok == old(fsdryok)
+
+//@ func outputTupleDir(v, dir, fs, dryRun)
+//@   tags C19, C10
+//@   returns (err)
+//@   assigns fresh-only
+//@   modifies fswrites, fsiofail, fsobsfail, fspending, fsdryok, rel.DictEnumerator
+//@   ghostentry fspending := false
+//@   ghostexit fsdryok := dryRun ? (err == nil) : fsdryok
+//@   requires fs != nil
+//@   requires[C19] validated: !dryRun ==> fsdryok
+//@   requires[C19] clean: !fsiofail
+//@   requires[C19] inroot: within(dir, fsroot)
+//@   ensures[C19] dry: dryRun ==> fswrites == old(fswrites)
+//@   ensures[C19] dry1: dryRun ==> fswrites <= old(fswrites) + 1
+//@   ensures[C19] dryok: dryRun ==> (fsdryok == (err == nil))
+//@   ensures[C19] realkeep: !dryRun ==> fsdryok == old(fsdryok)
+//@   ensures[C19] mono: fswrites >= old(fswrites)
+//@   ensures[C19] ioerr: err == nil ==> !fsiofail
+//@   ensures[C19] obserr: err == nil ==> fsobsfail == old(fsobsfail)
+//@   ensures[C19] kinds: err == nil ==> (v is rel.Dict || v is rel.EmptySet)
+//@   ensures[C19] handled: err == nil ==> !fspending
+//@   loop 0 invariant dry: dryRun ==> fswrites == old(fswrites)
+//@   loop 0 invariant obs: fsobsfail == old(fsobsfail)
+//@   loop 0 invariant mono: fswrites >= old(fswrites)
+//@   loop 0 invariant io: !fsiofail
+//@   loop 0 invariant handled: !fspending
+//@   loop 0 invariant enum: e != nil
+//@   loop 0 invariant validated: !dryRun ==> fsdryok
+
+//@ func outputValue(ctx, value, out)
+//@   tags C19, C10
+//@   returns (err)
+//@   assigns fresh-only
+//@   modifies fswrites, fsiofail, fsobsfail, fspending, fsdryok, rel.DictEnumerator
+//@   requires[C19] clean: !fsiofail
+//@   requires[C19] rootdef: fsroot == aftersep(out, ":")
+//@   ensures[C19] mono: fswrites >= old(fswrites)
+//@   ensures[C19] ioerr: err == nil ==> !fsiofail
+//@   ensures[C19] obserr: err == nil ==> fsobsfail == old(fsobsfail)
